@@ -46,6 +46,12 @@ Proof.
 Qed.
 Print Assumptions C11_invalid.
 
+(* the declarative stream specification is complete: whatever stream it allows for an input IS the tokenizer's result
+   (with C11_stream_spec: tokenize s = LOk ts  <->  LexSpec s ts) *)
+Theorem C11_spec_complete : forall ex s ts, LexSpec (negb ex) s ts -> tokenize ex s = LOk ts.
+Proof. exact tokenize_complete. Qed.
+Print Assumptions C11_spec_complete.
+
 (* non-vacuity: a concrete input with every token class, both modes *)
 Example C11_example :
   tokenize false [52;120;32;43;32;115;103;110;40;8211;51;46;53;93]%N
